@@ -257,7 +257,10 @@ def parse_txt(mnemo, attrib, txt, loc_db):
             # instruction
             elif isinstance(line, instruction):
                 cur_block.addline(line)
-                block_to_nlink = cur_block
+                if not delayslot:
+                    # An instruction in a delay slot keeps the link decided by
+                    # its branch
+                    block_to_nlink = cur_block
                 if not line.breakflow():
                     i += 1
                     continue
